@@ -4,6 +4,7 @@
 package column
 
 import (
+	"github.com/kelindar/bitmap"
 	"github.com/kelindar/column/commit"
 )
 
@@ -371,4 +372,92 @@ func vLemmaLoadBool(data []uint64, idx uint32) {
 	v, ok := col.Value(idx)
 	in := int(idx>>6) < len(data)
 	vAssert("value", ok == (in && vBit(data, idx)) && v.(bool) == ok && col.Contains(idx) == ok)
+}
+
+// ---------------------------------------------------------------------------------------------
+// Locked iteration (C04, C10): rangeRead calls its delegate once per block of the selection, in ascending order,
+// with exactly the block's window of the selection bitmap, while holding the block's read latch, and holds
+// nothing afterwards. The loop has a symbolic number of iterations: it is cut by the invariant below.
+
+var vNext uint32 // ghost: the block the delegate expects next
+var vTrack bool  // ghost: whether the harness in charge counts blocks in vNext
+
+//@ loop target=column.(*Txn).rangeRead index=0 props=C04,C10
+func vLoopRangeRead(txn *Txn, chunk commit.Chunk, limit commit.Chunk) {
+	vInvariant((!vTrack || uint32(chunk) == vNext) && chunk <= limit+1 && vNothingHeld())
+	vBody()
+}
+
+//@ lemma props=C04,C10
+func vLemmaRangeRead(index []uint64, owner *Collection) {
+	vAssume(len(index) < 1<<30 && owner != nil && owner.slock != nil && vNothingHeld())
+	txn := &Txn{index: index, owner: owner}
+	vCol = owner
+	vNext, vTrack = 0, true
+	txn.rangeRead(func(chunk commit.Chunk, w bitmap.Bitmap) {
+		vAssert("ascending-once", uint32(chunk) == vNext)
+		vAssert("latch-held", vLatchR[uint(chunk)%128] == 1)
+		vAssert("window", vSameSlice(w, chunk.OfBitmap(txn.index)))
+		vNext++
+	})
+	vAssert("covers-all-blocks", vNext == uint32(len(index)>>bitmapShift)+1)
+	vAssert("released", vNothingHeld())
+}
+
+// QueryAt (C10, C18): the callback runs with the cursor on the requested row and the read latch of that row's block
+// held; the latch is released on return and the callback's error is returned.
+//
+//@ lemma props=C10,C18
+func vLemmaQueryAt(owner *Collection, index uint32, errIn error) {
+	vAssume(owner != nil && owner.slock != nil && vNothingHeld())
+	txn := &Txn{owner: owner}
+	vCol = owner
+	called := 0
+	err := txn.QueryAt(index, func(r Row) error {
+		vAssert("latch-held-for-row-block", vLatchR[uint(commit.ChunkAt(index))%128] == 1)
+		vAssert("cursor-on-row", r.txn == txn && txn.cursor == index && r.Index() == index)
+		called++
+		return errIn
+	})
+	vAssert("called-once", called == 1)
+	vAssert("error-returned", err == errIn)
+	vAssert("released", vNothingHeld())
+}
+
+//@ loop target=column.(*Txn).rangeReadPair index=0 props=C04,C10
+func vLoopRangeReadPair(txn *Txn, chunk commit.Chunk, limit commit.Chunk) {
+	vInvariant((!vTrack || uint32(chunk) == vNext) && chunk <= limit+1 && vNothingHeld())
+	vBody()
+}
+
+//@ lemma props=C04,C10,C18
+func vLemmaRangeReadPair(index []uint64, owner *Collection, col *column) {
+	vAssume(len(index) < 1<<30 && owner != nil && owner.slock != nil && col != nil && vNothingHeld())
+	txn := &Txn{index: index, owner: owner}
+	vCol = owner
+	vNext, vTrack = 0, true
+	txn.rangeReadPair(col, func(a, b bitmap.Bitmap) {
+		vAssert("latch-held", vLatchR[uint(vNext)%128] == 1 && vOtherW == 0)
+		vAssert("window", vSameSlice(a, commit.Chunk(vNext).OfBitmap(txn.index)))
+		vNext++
+	})
+	vAssert("covers-all-blocks", vNext == uint32(len(index)>>bitmapShift)+1)
+	vAssert("released", vNothingHeld())
+}
+
+// Txn.Range (C04, C10): for a selected bit x of the block window the callback gets offset = block start + x and the
+// transaction cursor is on that row while it runs.
+//
+//@ lemma props=C04,C10
+func vLemmaTxnRange(index []uint64, owner *Collection) {
+	vAssume(len(index) <= 1<<25 && owner != nil && owner.slock != nil && vNothingHeld()) // offsets are 32-bit
+	txn := &Txn{index: index, owner: owner, setup: true}
+	vCol = owner
+	vTrack = false
+	txn.Range(func(idx uint32) {
+		vAssert("cursor-is-offset", txn.cursor == idx)
+		vAssert("row-selected", int(idx>>6) < len(txn.index) && vBit(txn.index, idx))
+		vAssert("latch-of-row-block", vLatchR[uint(commit.ChunkAt(idx))%128] == 1)
+	})
+	vAssert("released", vNothingHeld())
 }
